@@ -962,6 +962,9 @@ class Super:
                 return ("load", args[0])
             if not args and t["callee"].get("substs"):
                 return ("call", np, args, tuple(t["callee"]["substs"]))
+            if not np.startswith(("std::", "<")):
+                # third-party crates (synstructure, quote, slotmap...): not known to be pure, keep the call site in the identity
+                return ("ret", np, args, "%s:bb%d" % (fn.npath, bb))
             return ("call", np, args)
         if ci["kind"] == "crate" and ci["targets"]:
             tf = ci["targets"][0]
